@@ -148,6 +148,44 @@ CHECKS["C15"] = (
     "existing plain parent id and delete through the child store of an entity without child data are outside (not constrained by the statement).",
     "6/C15")
 
+CHECKS["C01"] = (
+    "Three layers against one reference semantics (DESIGN.md appendix A.1). (1) Comparison kernel: ~110 programs (every operator x literal kind the grammar "
+    "admits on string / int64 / float64 / bool / datetime fields: six comparisons, null tests, in / not in with string, int, float and datetime arrays, between "
+    "with inclusive lower and exclusive upper bound, contains / icontains and negations, int-to-float and number-to-string coercion, connectives), field value "
+    "null or symbolic (strings <=2/3 bytes, full-width int64, all float64 bit patterns, datetime samples around the literals): real typer + evaluator == spec. "
+    "(2)+(3) Through the store on symbolic populations of 2 (quick) / 3 (thorough) entities: anyOf / allOf / count / isEmpty over a direct string set (elements "
+    "arbitrary bytes; the index-seek shortcut is compared with the scan semantics), scalars, fk-dotted symbols, the back-reference set, three-level set paths, "
+    "sub-queries, map elements holding a string / int64 / bool / nothing: QueryIds returns exactly the satisfying ids, once each, with the right count.",
+    BASE_NOTE + "Programs are enumerated (parsed by the real parser natively, replayed into the real listener). Known finding KF-C01-null-bool-reads-false. "
+    "Outside: decimal rendering of a symbolic integer beyond [-10,10] and of a symbolic float (paths cut and listed in the evidence), Unicode case folding, int sets.",
+    "6/C01")
+CHECKS["C10"] = (
+    "Typing / evaluation half of C10. ~900 grammatical sentences covering every left operand kind (fields of each type, map element, set used as scalar, "
+    "unknown symbol, anyOf / allOf / count incl. sub-query) x every operator form x every literal kind (ill-typed mixes included), bool forms, isEmpty, sort / skip / "
+    "limit, string literals with escapes: the real lexer/parser (native) + listener + typer return a query or an error, never a panic; every typed query is then "
+    "evaluated over symbolic data (each field null or not, sets empty or not, symbolic values) without panicking. Store level: every query shape on a never-"
+    "written store, an emptied store and an entity with all fields null (QueryIds, IterateIds, IterateValidIds); cursor constructors on empty inputs.",
+    BASE_NOTE + "NOT claimed: termination / no-panic of the ANTLR lexer+parser on arbitrary byte strings and rejection of unrecognised characters (the ATN "
+    "interpreter is not encodable; see DESIGN.md section 7 - e.g. the lexer's silent dropping of unknown characters is outside this technique's reach).",
+    "6/C10")
+CHECKS["C17"] = (
+    "Marker / timeline slice only. From an arbitrary metadata state (reset marker absent / true / false, stored timeline id absent or a symbolic string) a "
+    "GetTimelineId request in any of the three modes with a succeeding or failing id source: a fresh id is produced exactly when due, stored, the marker cleared; "
+    "otherwise the stored id is returned without consulting the source; a failing source changes nothing; the following request returns the same id (fresh exactly "
+    "once). Snapshot (real code incl. SnapshotInTx and MarkAsSnapshot over the modelled CopyFile/Open) marks the copy, not the live database; the copy reports the "
+    "returned snapshot id, carries the snapshot-time content and yields a fresh timeline id exactly once.",
+    BASE_NOTE + "NOT claimed (DESIGN.md section 7): byte-level equality of the copied file, close / rename / reopen in RestoreFromReader, restore listeners, "
+    "and atomicity with respect to concurrent transactions - file I/O and scheduling are not encodable.",
+    "6/C17")
+CHECKS["C20"] = (
+    "65 typed queries covering every AST node kind that can reference a symbol (comparisons of each type incl. int-to-float conversion nodes, in / between / "
+    "contains / icontains subjects, null tests, bare bool, map elements, set functions, dotted symbols, sub-queries, sort fields); per query every public / "
+    "non-public assignment of the symbols it references (symbolic bits, plus an independent bit making only the first segment of a dotted symbol public): "
+    "ValidateSymbolsArePublic accepts iff all referenced symbols are public (map elements iff their map), and a rejection is an UnknownSymbolError naming a "
+    "referenced non-public symbol.",
+    BASE_NOTE + "Node kinds are covered through the query family, not generated from go/types.",
+    "6/C20")
+
 NOT_APPLICABLE = {
     "C18": "quantifies over goroutine schedules and data races on top of bbolt's MVCC; a sequential SSA symbolic executor has no schedule variable, bbolt's isolation is not encodable, and in the bbolt model it would hold by construction (DESIGN.md section 7)",
 }
